@@ -9,6 +9,7 @@ import (
 	"os"
 	"path/filepath"
 	"reflect"
+	"sort"
 	"sync"
 
 	"github.com/semihalev/sdns/internal/cache"
@@ -213,6 +214,8 @@ func facts() map[string]any {
 		"mutators_without_write_lock":       mutatorsWithoutWriteLock(),
 		"segmap_count_atomic":               countIsAtomic(segMapT),
 		"cache_wrappers_touching_internals": cacheWrappersTouchingInternals(),
+		"cache_delegations":                 cacheDelegations(),
+		"segmap_trylocks":                   tryLocks(),
 	}
 }
 
@@ -288,4 +291,74 @@ func cacheWrappersTouchingInternals() []string {
 		}
 	}
 	return bad
+}
+
+// cacheDelegations lists, for every method of cache.Cache other than
+// CompareAndSwap / CompareAndDelete, "<method>:<methods it calls, in source
+// order, joined by +>" (sorted).
+func cacheDelegations() []string {
+	repo := os.Getenv("VERIF_REPO")
+	if repo == "" {
+		repo = "/repo"
+	}
+	fset := token.NewFileSet()
+	file, err := parser.ParseFile(fset, filepath.Join(repo, "internal/cache/cache.go"), nil, 0)
+	if err != nil {
+		return []string{"cache.go:missing"}
+	}
+	out := []string{}
+	for _, d := range file.Decls {
+		fd, ok := d.(*ast.FuncDecl)
+		if !ok || fd.Recv == nil || fd.Body == nil || fd.Name.Name == "CompareAndSwap" || fd.Name.Name == "CompareAndDelete" {
+			continue
+		}
+		calls := ""
+		ast.Inspect(fd.Body, func(n ast.Node) bool {
+			if call, ok := n.(*ast.CallExpr); ok {
+				name := "?"
+				switch f := call.Fun.(type) {
+				case *ast.SelectorExpr:
+					name = f.Sel.Name
+				case *ast.Ident:
+					name = f.Name
+				}
+				if name == "int" || name == "int64" { // conversions are not calls
+					return true
+				}
+				if calls != "" {
+					calls += "+"
+				}
+				calls += name
+			}
+			return true
+		})
+		out = append(out, fd.Name.Name+":"+calls)
+	}
+	sort.Strings(out)
+	return out
+}
+
+// tryLocks counts TryLock / TryRLock calls in the segmented table and the
+// cache: a reader or writer that gives up instead of waiting answers from no
+// state at all.
+func tryLocks() int {
+	repo := os.Getenv("VERIF_REPO")
+	if repo == "" {
+		repo = "/repo"
+	}
+	n := 0
+	for _, rel := range []string{"internal/cache/segment_uint64_map.go", "internal/cache/cache.go", "internal/cache/uint64_sync_map.go"} {
+		fset := token.NewFileSet()
+		file, err := parser.ParseFile(fset, filepath.Join(repo, rel), nil, 0)
+		if err != nil {
+			return -1
+		}
+		ast.Inspect(file, func(nd ast.Node) bool {
+			if sel, ok := nd.(*ast.SelectorExpr); ok && (sel.Sel.Name == "TryLock" || sel.Sel.Name == "TryRLock") {
+				n++
+			}
+			return true
+		})
+	}
+	return n
 }
